@@ -170,7 +170,7 @@ def run(ctx):
     rng = random.Random(ctx["seed"] + 1101)
     viol, corr, reqs = [], [], []
     sub_reqs = []
-    n = 25 if ctx["tier"] == "quick" else 400
+    n = 25 * nv.boost("mp") if ctx["tier"] == "quick" else 400
     per = 12 if ctx["tier"] == "quick" else 60
     done = 0
     while done < n:
@@ -222,7 +222,7 @@ def run(ctx):
     # the real parent (one canonical delivery order: the optimum cannot depend on it, C11_optimize_best) must be the brute-force
     # optimum, and each worker's stream must end with what the model's `optimize` returns on that sub-problem
     import oracle
-    n_opt = 60 if ctx["tier"] == "quick" else 1500
+    n_opt = 60 * nv.boost("mp") if ctx["tier"] == "quick" else 1500
     done = 0
     while done < n_opt:
         prob, theme = ce.gen_problem(rng)
